@@ -24,6 +24,7 @@ import importlib
 import importlib.util
 import inspect
 import json
+import re
 import signal
 import sys
 import types
@@ -178,6 +179,20 @@ def render_doc(lines, indent):
     return [" " * indent + '"""' + text + '"""']
 
 
+def _shadow_table():
+    """stdlib modules and names defined in them (obj.__module__ is the module itself), so the expected alias is <module>.<name>"""
+    table = {"logging": ["Logger", "getLogger"], "enum": ["Enum", "unique"], "json": ["dumps", "loads"], "types": ["SimpleNamespace", "new_class"]}
+    out = {}
+    for modname, names in table.items():
+        m = importlib.import_module(modname)
+        ok = [(n, "class" if inspect.isclass(getattr(m, n)) else "func") for n in names
+              if getattr(getattr(m, n), "__module__", None) == modname and getattr(getattr(m, n), "__qualname__", None) == n]
+        if ok:
+            out[modname] = ok
+    return out
+
+
+SHADOWS = _shadow_table()
 TAGS = {"core": "c", "_core": "u", "util": "t", "inner": "i", "deep": "d", "leaf": "l", "sub": "s"}
 VALUES = ["1", repr("s"), "(1, 2)", "None", "[1]", "{1: 2}", "1.5", "True"]
 
@@ -198,9 +213,38 @@ class Gen:
         self.self_import = rng.random() < 0.06
         self.twin_module = False
         self.twin_module_in_class = False
+        self.extra_tops = []
+        self.n_annotated = 0
+        self.ann_pool = ["Missing", "N0"]
         self.mods = self.layout()
-        for m in self.mods:
+        shadows = self.gen_shadows()
+        self.mods = shadows + self.mods
+        for m in self.mods[len(shadows):]:
             self.gen_module(m)
+
+    def gen_shadows(self):
+        """Package modules named like the top-level module they import from: pkg/logging.py doing `from logging import Logger`,
+        and the intra-project shape pkg/<name>.py importing from a top-level <name>.py of the same source root."""
+        rng = self.rng
+        out = []
+        if rng.random() < 0.35:
+            name = rng.choice(sorted(SHADOWS))
+            self.add_shadow(f"{self.pkg}.{name}", name, SHADOWS[name])
+            out.append((f"{self.pkg}.{name}", False))
+        if rng.random() < 0.25:
+            name = f"ext_{self.pkg}"
+            self.files[f"{name}.py"] = "class ExtK:\n    pass\ndef ext_f(a, b=1):\n    pass\n"
+            self.extra_tops.append(name)
+            self.add_shadow(f"{self.pkg}.{name}", name, [("ExtK", "class"), ("ext_f", "func")])
+            out.append((f"{self.pkg}.{name}", False))
+        return out
+
+    def add_shadow(self, mod, source, names):
+        self.files[self.path_of(mod, False)] = f"from {source} import {', '.join(n for n, _ in names)}\n"
+        self.meta[mod] = {"form": "module", "doc": None}
+        for n, kind in names:
+            self.meta[f"{mod}.{n}"] = {"form": ["imported", "mod", kind], "external": f"{source}.{n}", "name": n}
+        self.exports[mod] = {}
 
     def layout(self):
         p = self.pkg
@@ -222,10 +266,24 @@ class Gen:
         npo, nar, va, nko, kw = v
         return (npo, nar, va, nko, kw, rng.randint(0, npo + nar), rng.getrandbits(nko) if nko else 0)
 
-    def method_sig(self, first):
-        """A signature whose first parameter is `first` (self / cls); `first, <any legal list>` is always legal."""
-        text = c02.render_sig(self.rand_sig(), False)
-        return f"{first}, {text}" if text else first
+    def sig_pair(self, first=None):
+        """(plain parameter list, parameter list as written, return annotation as written).  About a third of the definitions carry
+        quoted annotations naming things that do not exist in the function's globals at runtime: a name imported only under
+        `if typing.TYPE_CHECKING:`, a nested class (class-scope name), or nothing at all.  `first, <any legal list>` is always legal."""
+        rng = self.rng
+        v = self.rand_sig()
+        plain = c02.render_sig(v, False)
+        src, ret = plain, ""
+        if rng.random() < 0.3:
+            src = re.sub(r": A\d+", lambda m: ': "%s"' % rng.choice(self.ann_pool), c02.render_sig(v, True))
+            if rng.random() < 0.5:
+                ret = ' -> "%s"' % rng.choice(self.ann_pool)
+            if src != plain or ret:
+                self.n_annotated += 1
+        if first:
+            plain = f"{first}, {plain}" if plain else first
+            src = f"{first}, {src}" if src else first
+        return plain, src, ret
 
     def gen_module(self, modinit):
         mod, init = modinit
@@ -238,6 +296,17 @@ class Gen:
         self.meta[mod] = {"form": "module", "doc": doc}
         need_functools = False
         body = []
+        self.ann_pool = ["Missing", "N0"]
+        guarded = []
+        names_in_order = [m for m, _ in self.mods]
+        lower_classes = [(src, n) for src in names_in_order[: names_in_order.index(mod)]
+                         for n, o in self.exports[src].items() if o["kind"] == "class" and not o["chain"]]
+        if lower_classes and rng.random() < 0.3:
+            src, n = rng.choice(lower_classes)
+            guarded = ["import typing", "if typing.TYPE_CHECKING:", f"    from {src} import {n} as Tc{n}"]
+            self.meta[f"{mod}.typing"] = {"form": "extimport", "target": "typing"}
+            self.meta[f"{mod}.Tc{n}"] = {"form": "typeguarded", "target": f"{src}.{n}"}
+            self.ann_pool = [f"Tc{n}", f"Tc{n}", "Missing", "N0"]
         for i in range(rng.randint(0, 2)):
             name = f"V{i}{tag}"
             value = rng.choice(VALUES)
@@ -247,9 +316,9 @@ class Gen:
         for i in range(rng.randint(1, 3)):
             name = f"f{i}{tag}"
             is_async = rng.random() < 0.3
-            sig = c02.render_sig(self.rand_sig(), False)
+            sig, src_sig, ret = self.sig_pair()
             d = gen_doc(rng)
-            body.append(f"{'async ' if is_async else ''}def {name}({sig}):")
+            body.append(f"{'async ' if is_async else ''}def {name}({src_sig}){ret}:")
             body += render_doc(d, 4) or ["    pass"]
             self.meta[f"{mod}.{name}"] = {"form": ["func", "mod", is_async], "doc": d, "sig": sig, "bound": False}
             exports[name] = {"kind": "asyncfunc" if is_async else "func", "defmod": mod, "defname": name, "chain": []}
@@ -283,6 +352,7 @@ class Gen:
         if need_functools:
             L.append("import functools")
             self.meta[f"{mod}.functools"] = {"form": "extimport", "target": "functools"}
+        L += guarded
         L += body
         self.files[self.path_of(mod, init)] = "\n".join(L) + "\n"
         self.files_mods = {m for m, _ in self.mods}
@@ -311,8 +381,8 @@ class Gen:
             pre = "async def" if is_async else "def"
             dl = render_doc(dd, 4 * depth + 8)
             if base in ("method", "init"):
-                sig = self.method_sig("self")
-                L.append(f"{ind1}{pre} {name}({sig}):")
+                sig, src_sig, ret = self.sig_pair("self")
+                L.append(f"{ind1}{pre} {name}({src_sig}){ret}:")
                 L += dl
                 if base == "init":
                     L.append(f"{ind1}    self.inst_attr = 1")
@@ -321,12 +391,12 @@ class Gen:
                     L.append(f"{ind1}    pass")
                 self.meta[f"{path}.{name}"] = {"form": ["func", "cls", is_async], "doc": dd, "sig": sig, "bound": False}
             elif base == "static":
-                sig = c02.render_sig(self.rand_sig(), False)
-                L += [f"{ind1}@staticmethod", f"{ind1}{pre} {name}({sig}):"] + (dl or [f"{ind1}    pass"])
+                sig, src_sig, ret = self.sig_pair()
+                L += [f"{ind1}@staticmethod", f"{ind1}{pre} {name}({src_sig}){ret}:"] + (dl or [f"{ind1}    pass"])
                 self.meta[f"{path}.{name}"] = {"form": ["static", is_async], "doc": dd, "sig": sig, "bound": False}
             elif base == "classm":
-                sig = self.method_sig("cls")
-                L += [f"{ind1}@classmethod", f"{ind1}{pre} {name}({sig}):"] + (dl or [f"{ind1}    pass"])
+                sig, src_sig, ret = self.sig_pair("cls")
+                L += [f"{ind1}@classmethod", f"{ind1}{pre} {name}({src_sig}){ret}:"] + (dl or [f"{ind1}    pass"])
                 self.meta[f"{path}.{name}"] = {"form": ["classm", is_async], "doc": dd, "sig": sig, "bound": True}
             elif base in ("prop", "prop_setter"):
                 L += [f"{ind1}@property", f"{ind1}def {name}(self):"] + dl + [f"{ind1}    return 1"]
@@ -465,7 +535,7 @@ def load_both(pkg, root):
 
 
 def purge_modules(pkg):
-    for k in [k for k in sys.modules if k == pkg or k.startswith(pkg + ".")]:
+    for k in [k for k in sys.modules if k == pkg or k.startswith(pkg + ".") or k == "ext_" + pkg]:
         del sys.modules[k]
     importlib.invalidate_caches()
 
@@ -474,7 +544,7 @@ def final_path(alias):
     try:
         return alias.final_target.path
     except Exception as e:  # noqa: BLE001
-        return f"<{type(e).__name__}>{alias.target_path}"
+        return f"<unresolved>{alias.target_path}"
 
 
 def base_path(cls, b):
@@ -495,7 +565,7 @@ def summarize(obj):
     out = {}
     for name, m in obj.members.items():
         if m.is_alias:
-            out[name] = {"t": "alias", "target": m.target_path, "final": final_path(m)}
+            out[name] = {"t": "alias", "target": m.target_path, "final": final_path(m), "runtime": bool(m.runtime)}
             continue
         d = {"t": m.kind.value, "labels": sorted(m.labels), "doc": None if m.docstring is None else m.docstring.value}
         if m.kind.value == "function":
@@ -548,6 +618,9 @@ def compare_trees(st, dy, path, top_st, diffs, in_class=False):
         if b is None:
             # allowed: instance attributes assigned in __init__
             if a["t"] == "attribute" and "instance-attribute" in a["labels"] and "class-attribute" not in a["labels"] and in_class:
+                continue
+            # allowed: a name imported only for type checkers (`if TYPE_CHECKING:`) is never bound at runtime
+            if a["t"] == "alias" and a.get("runtime") is False:
                 continue
             diffs.append((p, "only-static", a, None, {}))
             continue
@@ -909,6 +982,8 @@ def run_packages(ctx, n, label):
         has_chain = any(len(m.get("chain", [])) > 1 for m in gen.meta.values())
         ctx.case({"files": gen.files}, has_chain)
         ctx.observe("twin", f"twin={int(gen.twin)} twin_module={int(gen.twin_module)}")
+        ctx.observe("shadow_modules", len([m for m in gen.meta.values() if m.get("external")]) // 2)
+        ctx.observe("unresolvable_annotations", min(gen.n_annotated, 5))
         try:
             try:
                 st, dy = load_both(pkg, root)
